@@ -4,6 +4,7 @@ import NbioVerif.Lemmas.C09Rfc
 import NbioVerif.Lemmas.C09AutoLen
 import NbioVerif.Lemmas.C09Account
 import NbioVerif.Lemmas.C09ReadFrom
+import NbioVerif.Lemmas.C09FlushClose
 /-! C09 HTTP response framing — property theorems over the model `Resp` (nbhttp/response.go). -/
 namespace Resp
 
@@ -139,7 +140,7 @@ theorem c09_wire_shape_K (g : Cfg) (hg : g.failAt = 0) (hdr : Header) (sc : Nat)
       wireOf g hdr sc st ops =
         g.head rE ++ framed (body0 g hdr sc st).chunked (accepted g hdr sc st ops) ++
           (if (body0 g hdr sc st).chunked then lastChunk (eoncodeHead g (endState g hdr sc st ops)) else []) ∧
-      (finish g (endState g hdr sc st ops)).2 = g.reqClose := by
+      (finish g (endState g hdr sc st ops)).2 = (g.reqClose || (endState g hdr sc st ops).closeDelim) := by
   have hf : Fresh (body0 g hdr sc st) := fresh_prelude g _ ⟨rfl, rfl, rfl, rfl⟩
   have hp : Pre (body0 g hdr sc st) := pre_prelude g _
   have hw := start_winv _ hf hp
@@ -163,7 +164,7 @@ theorem c09_wire_shape (g : Cfg) (hg : g.failAt = 0) (hdr : Header) (sc : Nat) (
       wireOf g hdr sc st ops =
         g.head rE ++ framed (body0 g hdr sc st).chunked (accepted g hdr sc st ops) ++
           (if (body0 g hdr sc st).chunked then lastChunk (eoncodeHead g (endState g hdr sc st ops)) else []) ∧
-      (finish g (endState g hdr sc st ops)).2 = g.reqClose :=
+      (finish g (endState g hdr sc st ops)).2 = (g.reqClose || (endState g hdr sc st ops).closeDelim) :=
   c09_wire_shape_K g hg hdr sc st ops hok (fun _ => True) trivial (fun _ _ _ _ => trivial)
 
 /-- **C09 stage 1, framing.** Under the stage-1 hypotheses and for payloads the length formatter can
@@ -461,13 +462,15 @@ def cfg11 : Cfg :=
   let g : Cfg := { proto := str "HTTP/1.1", proto11 := true, reqClose := false, head := fun _ => [] }
   { g with head := headBytes g }
 
-/-- **finding resp-flush-identity-nocl.** The full C09 statement would need "the head announces the length
-of the body" for identity framing.  Witness against it: HTTP/1.0, no Content-Length, Write "a", Flush,
-Write "b" — the head (encoded by the Flush) announces `Content-Length: 1`, two body bytes follow. -/
-theorem c09_flush_identity_counterexample :
+/-- (was finding resp-flush-identity-nocl, repaired) HTTP/1.0, no Content-Length, Write "a", Flush, Write "b": the
+Flush sends a head WITHOUT Content-Length and with `Connection: close`; the body is delimited by closing the
+connection, which flushResponse does. -/
+theorem c09_flush_identity_example :
     (finish cfg10 (run cfg10 (start [(kDate, [str "D"])] 0 [])
         [.write (str "a"), .flush, .write (str "b")]).1).1.wire.flatten =
-      str "HTTP/1.0 200 OK\r\nContent-Type: text/plain; charset=utf-8\r\nContent-Length: 1\r\nDate: D\r\n\r\nab" := by
+      str "HTTP/1.0 200 OK\r\nContent-Type: text/plain; charset=utf-8\r\nConnection: close\r\nDate: D\r\n\r\nab" ∧
+    (finish cfg10 (run cfg10 (start [(kDate, [str "D"])] 0 [])
+        [.write (str "a"), .flush, .write (str "b")]).1).2 = true := by
   decide
 
 /-- **finding resp-head-body.** nbhttp.Response never reads the request method (the model has no such
@@ -478,12 +481,15 @@ theorem c09_head_counterexample :
       str "HTTP/1.1 200 OK\r\nDate: D\r\nTransfer-Encoding: chunked\r\n\r\n" ++ str "0\r\n\r\n" := by
   decide
 
-/-- **finding resp-readfrom-nil-head.** ReadFrom after a Write on a response with Content-Length: the
-head buffer has moved into the body buffer and `*res.buffer` is a nil dereference. -/
-theorem c09_readfrom_after_write_counterexample :
+/-- (was finding resp-readfrom-nil-head, repaired) ReadFrom after a Write on a response with Content-Length: the
+head has moved into the body buffer; it and the first ten bytes go out before the reader's bytes. -/
+theorem c09_readfrom_after_write_example :
     (run cfg11 (start [(kDate, [str "D"]), (kCL, [str "20"])] 0 [])
-        [.write (str "0123456789"), .readFrom .plain (str "0123456789")]).2 =
-      [some (.ok 10), some .panic] := by
+        [.write (str "0123456789"), .readFrom .plain (str "abcdefghij")]).2 =
+      [some (.ok 10), some (.ok 10)] ∧
+    (finish cfg11 (run cfg11 (start [(kDate, [str "D"]), (kCL, [str "20"])] 0 [])
+        [.write (str "0123456789"), .readFrom .plain (str "abcdefghij")]).1).1.wire.flatten =
+      str "HTTP/1.1 200 OK\r\nContent-Type: text/plain; charset=utf-8\r\nDate: D\r\nContent-Length: 20\r\n\r\n0123456789abcdefghij" := by
   decide
 
 /-- **outside `saneStatus` (handler error, not a finding).** nbhttp has no informational responses: a handler
@@ -538,8 +544,8 @@ theorem c09_identity_auto_length_partial (g : Cfg) (hg : g.failAt = 0) (hdr : He
 (an HTTP/1.0 request), no Flush, body-phase header operations on declared trailers only, the real head encoder:
 the reference parser reads the wire as the handler's status line, a field list that contains
 `Content-Length: <decimal length of the body>` (`0` for an empty body), and EXACTLY the concatenation of the
-accepted writes as the body.  (With a Flush before the last write this fails: finding
-`resp-flush-identity-nocl`, `c09_flush_identity_counterexample`.) -/
+accepted writes as the body.  (With a Flush the head announces no length and the connection is closed:
+`c09_flush_close_delimited`.) -/
 theorem c09_identity_auto_length (g : Cfg) (hg : g.failAt = 0) (hreal : g.head = headBytes g)
     (hdr : Header) (sc : Nat) (st : Bytes) (ops : List BOp) (hok : ∀ op ∈ ops, op.ok) (hnf : ∀ op ∈ ops, op ≠ .flush)
     (htr : ∀ op ∈ ops, op.trailerOnly (body0 g hdr sc st).header)
@@ -578,8 +584,14 @@ theorem c09_identity_auto_length (g : Cfg) (hg : g.failAt = 0) (hreal : g.head =
   have hch : (endState g hdr sc st ops).chunked = false := by rw [l3]; exact hid
   have hncl : hget (endState g hdr sc st ops).header kCL = [] := by
     rw [l4.2 kCL (by decide)]; exact hnocl
+  have hcd : (endState g hdr sc st ops).closeDelim = false := by
+    show (runB g (body0 g hdr sc st) ops).1.closeDelim = false
+    rw [runB_closeDelim_noflush g ops _ hnf]
+    show (checkChunked g (writeHeader200 (start hdr sc st))).closeDelim = false
+    unfold writeHeader200
+    simp [start]
   unfold autoPairs
-  simp only [hch, hncl, Bool.not_false, Bool.true_and, beq_self_eq_true, ↓reduceIte, List.mem_append,
+  simp only [hch, hcd, hncl, Bool.not_false, Bool.true_and, beq_self_eq_true, ↓reduceIte, List.mem_append,
     List.mem_singleton]
   left; left; right
   congr 1
@@ -663,6 +675,163 @@ theorem c09_readfrom_serve_content (g : Cfg) (hg : g.failAt = 0) (pre : List Op)
   obtain ⟨r', w⟩ := p
   dsimp only at a b c ⊢
   exact ⟨by rw [a], b, c⟩
+
+/-- **C09, ReadFrom anywhere in an identity-framed body phase** (repaired code; was finding
+`resp-readfrom-nil-head`). After ANY body-phase program (Writes of any size, Flushes, trailer updates) on an
+identity-framed response and a connection that accepts the writes, `ReadFrom` returns the number of bytes the reader
+yields, and after flushResponse the wire is the head followed by the accepted writes followed by EXACTLY the reader's
+bytes — whether the head buffer is still pending, has been sent, or has moved into the body buffer. -/
+theorem c09_readfrom_appends (g : Cfg) (hg : g.failAt = 0) (hdr : Header) (sc : Nat) (st : Bytes)
+    (ops : List BOp) (hok : ∀ op ∈ ops, op.ok) (hid : (body0 g hdr sc st).chunked = false)
+    (k : RKind) (data : Bytes) :
+    ∃ H : Bytes,
+      (readFrom g (endState g hdr sc st ops) k data).2 = .ok data.length ∧
+      (finish g (readFrom g (endState g hdr sc st ops) k data).1).1.wire.flatten =
+        H ++ (accepted g hdr sc st ops).flatten ++ data ∧
+      (finish g (readFrom g (endState g hdr sc st ops) k data).1).2 =
+        (g.reqClose || (endState g hdr sc st ops).closeDelim) := by
+  have hf : Fresh (body0 g hdr sc st) := fresh_prelude g _ ⟨rfl, rfl, rfl, rfl⟩
+  have hp : Pre (body0 g hdr sc st) := pre_prelude g _
+  have hw := start_winv _ hf hp
+  obtain ⟨hd', i1, _, i3, _, _⟩ :=
+    runB_spec g hg (verdict (body0 g hdr sc st)) ops hok (fun _ => True) (fun _ _ _ _ => trivial) _ _ _
+      (body0 g hdr sc st) none [] hw ⟨rfl, rfl, rfl, trivial⟩ (by intro H hH; cases hH)
+  have hc : (runB g (body0 g hdr sc st) ops).1.chunked = false := by rw [i3]; exact hid
+  have hbase := (i1.idn hc).1.toBase
+  obtain ⟨r', e, f1, f2, f3, f4, f5, f6, f7, _, f9⟩ := readFrom_appends g hg _ hd' _ hbase k data
+  have hpre : Pre r' := by
+    refine ⟨by rw [f6]; exact i1.pre.1, ?_⟩
+    rw [f5, writeHeader200_pre _ i1.pre.2]; exact i1.pre.2
+  obtain ⟨g1, g2⟩ := finish_sent_pre g hg r' hpre f2 f3 f4 (by rw [f7]; exact hc)
+  refine ⟨(hdAfter g { writeHeader200 (runB g (body0 g hdr sc st) ops).1 with hasBody := true } hd').getD [], ?_, ?_, ?_⟩
+  · show (readFrom g (runB g (body0 g hdr sc st) ops).1 k data).2 = _
+    rw [e]
+  · show (finish g (readFrom g (runB g (body0 g hdr sc st) ops).1 k data).1).1.wire.flatten = _
+    rw [e, g1, f1, hid, framed_identity]
+    simp
+  · show (finish g (readFrom g (runB g (body0 g hdr sc st) ops).1 k data).1).2 = _
+    rw [e]; dsimp only; rw [g2, f9]
+
+/-- **C09, Flush on an identity-framed response without Content-Length** (an HTTP/1.0 request; repaired code, was
+finding `resp-flush-identity-nocl`). The program is `ops1 ++ Flush :: ops2` with no Flush in `ops1` (so this is the
+Flush that sends the head), the handler gave no Content-Length, the status allows a body. Then the reference parser
+reads the wire as the handler's status line, a field list with NO `Content-Length` field, and EXACTLY the concatenation
+of all accepted writes (before and after the Flush) as the rest; and flushResponse closes the connection — the body
+is delimited by the end of the connection, which is how a response of unknown length is framed for a client that
+cannot read chunked coding (RFC 7230 §3.3.3 rule 7). -/
+theorem c09_flush_close_delimited (g : Cfg) (hg : g.failAt = 0) (hreal : g.head = headBytes g)
+    (hdr : Header) (sc : Nat) (st : Bytes) (ops1 ops2 : List BOp)
+    (hok1 : ∀ op ∈ ops1, op.ok) (hok2 : ∀ op ∈ ops2, op.ok) (hnf1 : ∀ op ∈ ops1, op ≠ .flush)
+    (htr1 : ∀ op ∈ ops1, op.trailerOnly (body0 g hdr sc st).header)
+    (htr2 : ∀ op ∈ ops2, op.trailerOnly (body0 g hdr sc st).header)
+    (hs : SaneHeaders g (body0 g hdr sc st))
+    (hid : (body0 g hdr sc st).chunked = false) (hnocl : ∀ e ∈ (body0 g hdr sc st).header, e.1 ≠ kCL)
+    (hst : (body0 g hdr sc st).statusCode ≠ 204 ∧ (body0 g hdr sc st).statusCode ≠ 304) :
+    ∃ fields : List (Bytes × Bytes),
+      parseHead (wireOf g hdr sc st (ops1 ++ .flush :: ops2)) =
+        some (statusBody g (body0 g hdr sc st), fields, (accepted g hdr sc st (ops1 ++ .flush :: ops2)).flatten) ∧
+      (∀ p ∈ fields, p.1 ≠ kCL) ∧
+      (finish g (endState g hdr sc st (ops1 ++ .flush :: ops2))).2 = true := by
+  -- no Content-Length: contentLength() answers 0
+  have hget0 : hget (body0 g hdr sc st).header kCL = [] := by
+    unfold hget
+    cases hf : (body0 g hdr sc st).header.find? (·.1 == kCL) with
+    | none => rfl
+    | some e =>
+      have hm := List.mem_of_find?_eq_some hf
+      have hk : e.1 = kCL := by simpa using List.find?_some hf
+      exact absurd hk (hnocl e hm)
+  have hcl0 : (body0 g hdr sc st).contentLen = 0 := by
+    show (checkChunked g (writeHeader200 (start hdr sc st))).contentLen = 0
+    unfold checkChunked writeHeader200 writeHeader start
+    dsimp only
+    repeat' split
+    all_goals rfl
+  have hv : verdict (body0 g hdr sc st) = some 0 := by
+    unfold verdict contentLength
+    simp [hcl0, hfirst, hget0]
+  have hf : Fresh (body0 g hdr sc st) := fresh_prelude g _ ⟨rfl, rfl, rfl, rfl⟩
+  have hp : Pre (body0 g hdr sc st) := pre_prelude g _
+  have hw := start_winv _ hf hp
+  -- phase 1: up to the Flush
+  obtain ⟨hd1, i1, _, i3, ⟨l1, l2, l3, l4⟩, _⟩ :=
+    runB_spec g hg (verdict (body0 g hdr sc st)) ops1 hok1 (SameHead (body0 g hdr sc st).header)
+      (fun op hop h hh => sameHead_op _ h op (htr1 op hop) hh) _ _ _
+      (body0 g hdr sc st) none [] hw ⟨rfl, rfl, rfl, ⟨rfl, fun _ _ => rfl⟩⟩ (by intro H hH; cases hH)
+  have hne := runB_noenc g (verdict (body0 g hdr sc st)) ops1 hnf1 hok1 _ hp hid hf.henc (Or.inr hv) rfl
+  obtain ⟨a1, a2⟩ := runB_append g ops1 (.flush :: ops2) (body0 g hdr sc st)
+  generalize hE1 : (runB g (body0 g hdr sc st) ops1).1 = E1 at *
+  generalize hA1 : (runB g (body0 g hdr sc st) ops1).2 = A1 at *
+  have hc1 : E1.chunked = false := by rw [i3]; exact hid
+  have hd1n : hd1 = none := by
+    cases hd1 with
+    | none => rfl
+    | some x => have := (i1.idn hc1).1.henc; rw [hne] at this; simp at this
+  subst hd1n
+  -- the Flush decides: close-delimited
+  have hcl1 : hget E1.header kCL = [] := by rw [l4.2 kCL (by decide)]; exact hget0
+  have hmd : markDelim E1 = { E1 with closeDelim := true } := by
+    unfold markDelim
+    have h204 : (E1.statusCode != 204) = true := by rw [l1]; simpa using hst.1
+    have h304 : (E1.statusCode != 304) = true := by rw [l1]; simpa using hst.2
+    simp [hne, hc1, hcl1, h204, h304]
+  obtain ⟨f1, f2, f3⟩ := flushOp_spec g hg _ E1 none _ i1
+  have hH : hdAfter g (markDelim E1) none = some (g.head (markDelim E1)) := by
+    unfold hdAfter; simp [hne]
+  rw [hH] at f1
+  have hlm : Line (SameHead (body0 g hdr sc st).header) (body0 g hdr sc st).statusCode (body0 g hdr sc st).status
+      (body0 g hdr sc st).chunked (markDelim E1) :=
+    ⟨by simp [l1], by simp [l2], by simp [l3], by simp; exact l4⟩
+  have hlF : Line (SameHead (body0 g hdr sc st).header) (body0 g hdr sc st).statusCode (body0 g hdr sc st).status
+      (body0 g hdr sc st).chunked (flushOp g E1) := by
+    refine ⟨?_, ?_, by rw [f2]; exact l3, by rw [f3]; exact l4⟩
+    · rw [flushOp_unfold g E1 i1.pre]; simp [l1]
+    · rw [flushOp_unfold g E1 i1.pre]; simp [l2]
+  have hFd : (flushOp g E1).closeDelim = true := by
+    rw [flushOp_unfold g E1 i1.pre]
+    simp [hmd]
+  -- phase 2: after the Flush the head is fixed
+  obtain ⟨hd2, j1, j2, j3, _, _⟩ :=
+    runB_spec g hg (verdict (body0 g hdr sc st)) ops2 hok2 (SameHead (body0 g hdr sc st).header)
+      (fun op hop h hh => sameHead_op _ h op (htr2 op hop) hh) _ _ _
+      (flushOp g E1) (some (g.head (markDelim E1))) _ f1 hlF
+      (by intro H hH'; cases hH'; exact ⟨markDelim E1, rfl, hlm⟩)
+  have hd2e : hd2 = some (g.head (markDelim E1)) := j2 rfl
+  subst hd2e
+  have hE2 : (runB g (body0 g hdr sc st) (ops1 ++ .flush :: ops2)).1 = (runB g (flushOp g E1) ops2).1 := by
+    rw [a1]; simp only [runB, BOp.toOp, step]
+  have hA2 : (runB g (body0 g hdr sc st) (ops1 ++ .flush :: ops2)).2 = A1 ++ (runB g (flushOp g E1) ops2).2 := by
+    rw [a2]; simp only [runB, BOp.toOp, step]
+  obtain ⟨w1, w2, w3⟩ := finish_spec g hg _ _ _ _ j1
+  have hc2 : (runB g (flushOp g E1) ops2).1.chunked = false := by rw [j3, f2]; exact hc1
+  have henc2 : (runB g (flushOp g E1) ops2).1.headEncoded = true := by
+    rw [(j1.idn hc2).1.henc]; rfl
+  have hH2 : hdAfter g (runB g (flushOp g E1) ops2).1 (some (g.head (markDelim E1))) = some (g.head (markDelim E1)) := by
+    unfold hdAfter; simp [henc2]
+  -- the head parses back
+  have hsE : SaneHead g (markDelim E1) := by
+    refine ⟨fun c hc => (hs.proto c hc).1, by simp [l2]; exact hs.status, by simp [l1]; exact hs.code, ?_, ?_⟩
+    · simp only [markDelim_header]; rw [l4.1]; exact hs.names
+    · simp only [markDelim_header]; rw [l4.1]; exact hs.values
+  have hsb : statusBody g (markDelim E1) = statusBody g (body0 g hdr sc st) := by
+    unfold statusBody; simp [l1, l2]
+  refine ⟨autoPairs g (markDelim E1) ++
+      handlerPairs (hget (markDelim E1).header kTrailer) (markDelim E1).header, ?_, ?_, ?_⟩
+  · show parseHead (finish g (runB g (body0 g hdr sc st) (ops1 ++ .flush :: ops2)).1).1.wire.flatten =
+      some (_, _, (runB g (body0 g hdr sc st) (ops1 ++ .flush :: ops2)).2.flatten)
+    rw [hE2, hA2, w1, hH2, hc2, f2, hc1, hid]
+    simp only [Option.getD_some, Bool.false_eq_true, ↓reduceIte, List.append_nil, List.nil_append]
+    rw [framed_identity, framed_identity, hreal, parseHead_headBytes g _ _ hsE, hsb]
+    simp
+  · intro p hp'
+    rcases List.mem_append.mp hp' with h1 | h1
+    · exact autoPairs_no_cl g _ (by rw [hmd]) p h1
+    · simp only [markDelim_header] at h1
+      rw [l4.1] at h1
+      exact not_mem_handlerPairs _ _ kCL hnocl p h1
+  · show (finish g (runB g (body0 g hdr sc st) (ops1 ++ .flush :: ops2)).1).2 = true
+    rw [hE2, w2, runB_closeDelim_mono g ops2 _ hFd]
+    simp
 
 /-! ### non-vacuity -/
 
